@@ -21,6 +21,8 @@ package ot
 //@ func (*MultiplyReceiver).Round2
 //@   nopanic[C05,C13]
 //@   requires mrok(r)
+//@   modifies heap:E_Int
+//@   allocates
 //@   loop 1: invariant each(msg.RCheck[:rangeindex+1], c, c != nil)
 //@   loop 2: invariant each(msg.RCheck, c, c != nil) && mrok(r)
 //@   loop 2: invariant[C13] callcount(Equal) == i && 0 <= i && i <= len(result) && len(result) == len(r.gadget)
@@ -147,3 +149,140 @@ package ot
 //@   allocates
 //@   loop 1: invariant csrok(r) && outMsg != nil && setup != nil
 //@   ensures csrok(r) && (result2 == nil ==> (result0 != nil && result1 != nil))
+
+// ---- sender side of the extension / multiplication layers (C05): a receiver message of any shape is refused with an
+// error or processed without a panic (every index is bounded by the batch size, which is a multiple of 8).
+//@ func bitAt
+//@   nopanic[C05]
+//@   requires 0 <= i && i < 8*len(data)
+//@   pure
+//@ func (*fieldElement).eq
+//@   nopanic[C05]
+//@   requires f != nil && a != nil
+//@   modifies nothing
+//@ func (*fieldElement).shl1
+//@   nopanic[C05]
+//@   requires f != nil
+//@   modifies heap:E_Int
+//@ func (*fieldElement).accumulate
+//@   nopanic[C05]
+//@   requires f != nil && a != nil && b != nil
+//@   modifies heap:E_Int
+//@   allocates
+//@ func transposeBits
+//@   nopanic[C05]
+//@   requires l >= 0 && M != nil && forall(j, integer, (0 <= j && j < 128) ==> 8*len(M[j]) >= l)
+//@   modifies nothing
+//@   allocates
+//@   ensures len(result) == l && fresh(result)
+//@ func CorreOTSend
+//@   nopanic[C05]
+//@   requires ctxHash != nil && ctxHash.h != nil && setup != nil && msg != nil && batchSize >= 0 && batchSize % 8 == 0
+//@   modifies nothing
+//@   allocates
+//@   loop 1: invariant 0 <= i && forall(k, integer, (0 <= k && k < i) ==> 8*len(Q[k]) == batchSize)
+//@   ensures result1 == nil ==> (result0 != nil && len(result0._Q) == batchSize && fresh(result0) && fresh(result0._Q))
+//@ func ExtendedOTSend
+//@   nopanic[C05]
+//@   requires ctxHash != nil && ctxHash.h != nil && setup != nil && msg != nil && msg.CorreMsg != nil && batchSize >= 0 && batchSize % 8 == 0
+//@   modifies hstate(ctxHash), wlog(ctxHash.h), heap:E_Int
+//@   allocates
+//@   loop 1: invariant ctxHash != nil && ctxHash.h != nil && correResult != nil && len(correResult._Q) == batchSize + 208
+//@   loop 2: invariant correResult != nil && len(correResult._Q) == batchSize + 208 && len(chi) == batchSize + 208 && digest != nil
+//@   loop 3: invariant correResult != nil && len(correResult._Q) == batchSize + 208 && len(chi) == batchSize + 208
+//@   loop 4: invariant correResult != nil && len(correResult._Q) == batchSize + 208 && len(V0) == batchSize && len(V1) == batchSize && hasher != nil && len(ctr) == 4 && 0 <= i
+//@   loop 5: invariant correResult != nil && len(correResult._Q) == batchSize + 208 && len(V0) == batchSize && len(V1) == batchSize && hasher != nil && len(ctr) == 4 && 0 <= i && i < batchSize
+//@   ensures result1 == nil ==> (result0 != nil && len(result0._V0) == batchSize && len(result0._V1) == batchSize)
+//@ pred aosok(r *AdditiveOTSender) := r != nil && r.ctxHash != nil && r.ctxHash.h != nil && r.group != nil && r.setup != nil && r.batchSize >= 0 && r.batchSize <= 65536 && r.batchSize % 8 == 0 && r.alpha[0] != nil && r.alpha[1] != nil
+//@ func (*AdditiveOTSender).Round1
+//@   nopanic[C05]
+//@   requires aosok(r)
+//@   modifies hstate(r.ctxHash), wlog(r.ctxHash.h), heap:E_Int
+//@   allocates
+//@   loop 1: invariant aosok(r) && extendedResult != nil && len(extendedResult._V0) == r.batchSize && len(extendedResult._V1) == r.batchSize && prg != nil && outMsg != nil && len(outMsg.CombinedPads) == r.batchSize && len(result) == r.batchSize && 0 <= i
+//@   loop 1: invariant forall(k, integer, (0 <= k && k < i) ==> (result[k][0] != nil && result[k][1] != nil))
+//@   ensures result2 == nil ==> (result0 != nil && len(result1) == r.batchSize && forall(k, integer, (0 <= k && k < len(result1)) ==> (result1[k][0] != nil && result1[k][1] != nil)))
+//@ pred msok(r *MultiplySender) := r != nil && r.ctxHash != nil && r.ctxHash.h != nil && r.group != nil && aosok(r.sender) && len(r.gadget) == r.sender.batchSize && each(r.gadget, g, g != nil) && r.doubleAlpha[0] != nil && r.doubleAlpha[1] != nil
+//@ func (*MultiplySender).Round1
+//@   nopanic[C05]
+//@   requires msok(r)
+//@   modifies hstate(r.sender.ctxHash), wlog(r.sender.ctxHash.h), heap:E_Int
+//@   allocates
+//@   loop 1: invariant msok(r) && len(result) == len(r.gadget) && len(rCheck) == len(result) && chi0 != nil && chi1 != nil && mul != nil && 0 <= i && forall(k, integer, (0 <= k && k < len(result)) ==> (result[k][0] != nil && result[k][1] != nil))
+//@   loop 2: invariant msok(r) && len(result) == len(r.gadget) && share != nil && mul != nil && 0 <= i && forall(k, integer, (0 <= k && k < len(result)) ==> (result[k][0] != nil && result[k][1] != nil))
+//@   ensures result2 == nil ==> (result0 != nil && result1 != nil)
+
+// ---- constructors: they establish the state invariants the round functions rely on
+//@ func makeGadget
+//@   nopanic[C05]
+//@   requires ctxHash != nil && ctxHash.h != nil && group != nil
+//@   modifies nothing
+//@   allocates
+//@   let n = 8*((sbits(group)+7)/8) + 8*((sbits(group)+167)/8)
+//@   let se = 8*((sbits(group)+7)/8)
+//@   loop 1: invariant fresh(out) && len(out) == n && acc != nil && i < (sbits(group)+7)/8 && -1 <= i
+//@   loop 1: invariant forall(k, integer, (8*(i+1) <= k && k < se) ==> out[k] != nil)
+//@   loop 2: invariant fresh(out) && len(out) == n && acc != nil && 0 <= i && i < (sbits(group)+7)/8 && 0 <= j && j <= 8
+//@   loop 2: invariant forall(k, integer, ((8*(i+1) <= k && k < se) || (8*i <= k && k < 8*i + j)) ==> out[k] != nil)
+//@   loop 3: invariant fresh(out) && len(out) == n && digest != nil && se <= i
+//@   loop 3: invariant forall(k, integer, (0 <= k && k < i && k < n) ==> out[k] != nil)
+//@   ensures fresh(result) && len(result) == n && each(result, g, g != nil)
+//@ func encode
+//@   nopanic[C05]
+//@   requires beta != nil && len(noise) % 8 == 0 && len(noise) <= 65536 && each(noise, x, x != nil)
+//@   modifies nothing
+//@   allocates
+//@   loop 1: invariant len(gamma) == len(noise)/8 && acc != nil && mulNat != nil && mul != nil && 0 <= i
+//@   ensures result1 == nil ==> len(result0) == 32 + len(noise)/8
+//@ func NewAdditiveOTSender
+//@   nopanic[C05]
+//@   requires alpha[0] != nil
+//@   modifies nothing
+//@   allocates
+//@   ensures result != nil && fresh(result) && result.ctxHash == ctxHash && result.setup == setup && result.batchSize == batchSize && result.group != nil && result.alpha[0] == alpha[0] && result.alpha[1] == alpha[1]
+//@ func NewMultiplySender
+//@   nopanic[C05]
+//@   requires ctxHash != nil && ctxHash.h != nil && setup != nil && alpha != nil
+//@   modifies nothing
+//@   allocates
+//@   ensures msok(result)
+//@ func CorreOTReceive
+//@   nopanic[C05]
+//@   requires ctxHash != nil && ctxHash.h != nil && setup != nil && len(choices) <= 65536
+//@   modifies nothing
+//@   allocates
+//@   loop 1: invariant 0 <= i && prg != nil && outMsg != nil && forall(k, integer, (0 <= k && k < i) ==> len(T0[k]) == len(choices))
+//@   loop 2: invariant 0 <= i && i < 128 && 0 <= j && prg != nil && outMsg != nil && len(T0[i]) == len(choices) && len(T1[i]) == len(choices) && len(outMsg.U[i]) == len(choices) && forall(k, integer, (0 <= k && k < i) ==> len(T0[k]) == len(choices))
+//@   ensures result0 != nil && result1 != nil && len(result1._T) == 8*len(choices) && fresh(result1)
+//@ func ExtendedOTReceive
+//@   nopanic[C05]
+//@   requires ctxHash != nil && ctxHash.h != nil && setup != nil && len(choices) <= 8192
+//@   modifies hstate(ctxHash), wlog(ctxHash.h), heap:E_Int
+//@   allocates
+//@   ensures result0 != nil && result0.CorreMsg != nil && result1 != nil && len(result1._VChoices) == 8*len(choices) && fresh(result1)
+// receiver: constructed state (mrok0), completed by Round1 (which runs the extension and stores its result): mrok
+//@ pred mrok0(r *MultiplyReceiver) := r != nil && r.group != nil && r.ctxHash != nil && r.ctxHash.h != nil && r.receiver != nil && r.receiver.group != nil && r.receiver.ctxHash != nil && r.receiver.ctxHash.h != nil && r.receiver.setup != nil && r.receiver.choices == r.choices && r.receiver.group == r.group && len(r.gadget) == 8*len(r.choices) && each(r.gadget, g, g != nil) && len(r.choices) <= 8192
+//@ func NewAdditiveOTReceiver
+//@   nopanic[C05]
+//@   modifies nothing
+//@   allocates
+//@   ensures result != nil && fresh(result) && result.ctxHash == ctxHash && result.setup == setup && result.group == group && result.choices == choices
+//@ func NewMultiplyReceiver
+//@   nopanic[C05]
+//@   requires ctxHash != nil && ctxHash.h != nil && setup != nil && beta != nil
+//@   modifies nothing
+//@   allocates
+//@   ensures result1 != nil ==> result0 == nil
+//@   ensures result1 == nil ==> mrok0(result0)
+//@ func (*AdditiveOTReceiver).Round1
+//@   nopanic[C05]
+//@   requires r != nil && r.ctxHash != nil && r.ctxHash.h != nil && r.setup != nil && len(r.choices) <= 8192
+//@   modifies AdditiveOTReceiver.result@r, hstate(r.ctxHash), wlog(r.ctxHash.h), heap:E_Int
+//@   allocates
+//@   ensures result != nil && result.Msg != nil && r.result != nil && len(r.result._VChoices) == 8*len(r.choices)
+//@ func (*MultiplyReceiver).Round1
+//@   nopanic[C05]
+//@   requires mrok0(r)
+//@   modifies AdditiveOTReceiver.result@r.receiver, hstate(r.receiver.ctxHash), wlog(r.receiver.ctxHash.h), heap:E_Int
+//@   allocates
+//@   ensures result != nil && result.Msg != nil && mrok(r)
